@@ -37,10 +37,13 @@ def dispatchers(F):
         b = f.built
         if f.kind != "assoc" or not b or wakers.cx_param(b) is None:
             continue
+        def keep_non_dispatchers(g):
+            # handlers stay calls; only a callee that itself switches over VectorDiff (an extracted dispatcher) is inlined
+            return default_keep(g) or not (g.built and diff_switches(g.built))
         for c in F.children.get(f.key, []):
-            cb = c.built
-            if not cb:
+            if not c.built:
                 continue
+            cb = inl(F, c, keep=keep_non_dispatchers, tag="dispatch")
             sws = diff_switches(cb)
             if not sws:
                 continue
@@ -161,7 +164,7 @@ def r10_2(ctx, handlers):
 
 def len_effects(F, f, depth=0):
     """effects on original_len in f's own body (every-path ones) plus those of local callees: list of (effect, every_path)"""
-    b = f.built
+    b = f.built  # raw body: local callees are followed explicitly below
     out = []
     for loc, s in b.iter_stmts():
         if s["k"] == "assign" and last_field(s["place"]) == "original_len":
@@ -245,7 +248,7 @@ def r10_4(ctx, handlers):
     n = 0
     want = {"PushFront": ("+", False), "PopFront": ("-", False), "Insert": ("+", True), "Remove": ("-", True)}
     for key, (h, vs) in handlers.items():
-        b = h.built
+        b = inl(ctx.facts, h)
         loops = shift_loops(b)
         for v in sorted(vs):
             n += 1
@@ -271,7 +274,7 @@ def r10_4(ctx, handlers):
                     probs.append("shifts all kept indices instead of those from the position of the changed item on")
                 elif not (x[0] == "call" and ecall_matches(x, r"::partition_point$")) or has_arith(skip):
                     probs.append("starts shifting at `%s`, not at the partition point of the changed source index" % fmt(skip, 4))
-            elif skip is not None:
+            elif skip is not None and not is_const_int(skip, 0):
                 probs.append("skips the first `%s` kept indices" % fmt(skip, 3))
             ctx.verdict(not probs, "R10.4", h, "index-shift:%s" % v, b.line_at(loc), "%s: kept indices %s are shifted by %s1" % (v, "from the partition point on" if from_pp else "(all)", sign),
                         "`%s`: %s" % (h.path, "; ".join(probs)))
